@@ -26,6 +26,9 @@ REQUIRED = ["reexport_same", "reexport_same_nested", "reexport_bindings", "reexp
 
 WORK = os.path.join(common.BUILD, "c06")
 TYPESHED = os.path.join(WORK, "typeshed")
+# scratch of THIS run (the pool workers are forked from this process and inherit it): two C06 runs at the same time
+# must not clean up each other's files
+RUN = os.path.join(WORK, "run%d" % os.getpid())
 PYVER = (3, 12)
 NWORKERS = min(16, max(2, (os.cpu_count() or 4)))
 TRANSPORTS = ["path", "imap", "pickle"]
@@ -451,7 +454,7 @@ def run_downstream(bsrc, d, transport):
 def pair_task(args):
   """One (upstream program, derived downstream, 3 transports) case on the real code."""
   idx, src = args
-  d = os.path.join(WORK, "p%d" % os.getpid(), "c%d" % idx)
+  d = os.path.join(RUN, "p%d" % os.getpid(), "c%d" % idx)
   out = {"idx": idx, "src": src}
   try:
     pyi, errs = run_upstream(src, d)
@@ -963,7 +966,7 @@ def chain_task(args):
   import re
   idx, dsrc, asrc = args
   io, config = _S["io"], _S["config"]
-  d = os.path.join(WORK, "p%d" % os.getpid(), "k%d" % idx)
+  d = os.path.join(RUN, "p%d" % os.getpid(), "k%d" % idx)
   out = {"idx": idx, "dep": dsrc, "src": asrc, "bad": [], "reads": 0, "skipped": None}
   try:
     os.makedirs(d, exist_ok=True)
@@ -1141,9 +1144,7 @@ def correspond(res, rng, tier):
 
 
 def _cleanup():
-  for n in os.listdir(WORK):
-    if n.startswith("p") and n[1:].isdigit():
-      shutil.rmtree(os.path.join(WORK, n), ignore_errors=True)
+  shutil.rmtree(RUN, ignore_errors=True)
 
 
 def witnesses(res):
